@@ -226,7 +226,9 @@ IntTab == << <<FALSE, <<>>>>,                           \* 1: 0
              <<FALSE, <<0, 64>>>>,                      \* 4: 2^14
              <<FALSE, <<0, 0, 0, 0, 0, 0, 0, 128>>>>,   \* 5: 2^63
              <<FALSE, <<0, 0, 0, 0, 0, 0, 0, 0, 1>>>>,  \* 6: 2^64
-             <<FALSE, <<1, 0, 0, 0, 0, 0, 0, 0, 1>>>> >>\* 7: 2^64 + 1
+             <<FALSE, <<1, 0, 0, 0, 0, 0, 0, 0, 1>>>>,  \* 7: 2^64 + 1
+             <<FALSE, <<0, 0, 0, 0, 0, 0, 0, 0, 64>>>>, \* 8: 2^70  (11 Zarith groups: naturals are unbounded, not 64-bit)
+             <<FALSE, <<1, 0, 0, 0, 0, 0, 0, 0, 0, 0, 0, 0, 16>>>> >>\* 9: 2^100 + 1
 Hdr(k, h, a, b, c, d) == <<<<k, h>>, IntTab[a], IntTab[b], IntTab[c], IntTab[d]>>
 H1 == Hdr(0, HA, 4, 7, 3, 1)
 H2 == Hdr(3, HB, 1, 2, 5, 6)
